@@ -633,6 +633,7 @@ func modeInterp(cfg hlib.Config, o *hlib.Out) {
 		interpCase(o, fromList(strings.Split(p, ",")))
 	}
 	ctxChainCheck(o)
+	blockedChecks(o, "")
 	n := 150
 	if cfg.Thorough() {
 		n = 1500
